@@ -17,7 +17,7 @@ RULE = ("Hypothesis constructs templates of 1..8 operations whose positional arg
         "must be raised. Non-trivial = a parameter occurring in >=2 arguments with different affine forms, or >=1 commuting swap "
         "applied, or a negative edit. Distinct = SHA-1 of template text + instance text.")
 ASSUMPTIONS = ["'inconsistent values' rejections are not asserted (the property does not list them)"]
-BUDGET = {"quick": (500, 4), "thorough": (10000, 16)}
+BUDGET = {"quick": (1600, 4), "thorough": (24000, 16)}
 
 _OPS = ["Sgate", "Dgate", "BSgate", "Rgate", "Vac", "Xgate", "MeasureX"]
 
@@ -55,7 +55,7 @@ def case(draw, tier):
     pending = list(params)
     for i in range(nops):
         op = draw(st.sampled_from(_OPS))
-        k = draw(st.sampled_from([1, 1, 2, 2]))
+        k = draw(st.sampled_from([1, 2, 2]))
         modes = draw(st.lists(st.integers(0, nm - 1), min_size=k, max_size=k, unique=True))
         nargs = draw(st.integers(0, 2))
         if pending and (nops - i) <= len(pending):
@@ -86,6 +86,8 @@ def case(draw, tier):
     script = A.Script("tmpl", "1.0", A.Meta(target, None) if target else None, None, [], items)
     vals = {p: draw(st.floats(min_value=-5, max_value=5, allow_nan=False).filter(lambda x: abs(x) > 1e-2)) for p in params}
     swaps = draw(st.lists(st.integers(0, max(0, len(items) - 2)), max_size=10))
+    if draw(st.booleans()):
+        swaps = [0, 0] + swaps if False else [0] + swaps       # the two leading statements are swapped when they commute
     edit = None
     if draw(st.integers(0, 2)) == 0:
         edit = {"kind": draw(st.sampled_from(["gate", "modes", "modes", "order", "order", "version", "target"])),
